@@ -99,6 +99,12 @@ def r3_vint64_length(c):
     for g, label in ((w, "write_usize"), (r, "read_usize")):
         nine = [x for x in cmp_sites(g) if x["op"] == "Eq" and 9 in (slice_const_ints(g.slice_of_operand(x["a"], at=(x["bb"], g.INF))) |
                                                                       slice_const_ints(g.slice_of_operand(x["b"], at=(x["bb"], g.INF))))]
+        if not nine:
+            # `match length { 9 => .., _ => .. }` compiles to a switch on the integer itself
+            for b in g.blocks:
+                t = b["t"]
+                if t["k"] == "switch" and not b.get("cleanup") and any(str(v) == "9" for v, _ in t.get("arms", [])):
+                    nine = [t]
         c.ob("R3", "%s-nine-byte-case" % label, bool(nine),
              "%s special-cases length == 9 (zero length byte followed by 8 value bytes)" % label if nine else
              "%s has no length == 9 case" % label, g)
